@@ -15,19 +15,22 @@ import (
 // Case is one input for all six functions. The zero values of the optional
 // fields reproduce the original case format {n,size,spare} (int elements).
 type Case struct {
-	N     int    `json:"n"`               // slice length
-	Size  int    `json:"size"`            // >= 1
-	Spare int    `json:"spare"`           // spare capacity behind the slice
-	Front int    `json:"front,omitempty"` // elements of the backing array in front of the slice
-	Kind  string `json:"kind,omitempty"`  // element kind, "" = int
-	Named bool   `json:"named,omitempty"` // slice type is a named type (sl[E]) instead of []E
-	Mode  string `json:"mode,omitempty"`  // "" = plain, "nested" = re-entrant callbacks + kept results, "gc", "abort", "repeat", "wrap" (modes_test.go)
-	Size2 int    `json:"size2,omitempty"` // inner size of the nested mode
-	Procs int    `json:"procs,omitempty"` // > 0: runtime.GOMAXPROCS(Procs) for the duration of the case
-	Fn    string `json:"fn,omitempty"`    // "" = all; otherwise a subset of "c" (Chunk, ChunkFunc), "w" (Windowed, WindowedFunc), "p" (Pairs, PairsFunc); wrap mode: capital letter = slice-returning variant
-	At    int    `json:"at,omitempty"`    // gc/abort mode: index (mod number of callbacks) of the callback that collects garbage / aborts
-	Var   int    `json:"var,omitempty"`   // abort mode: 0 = panic, 1 = runtime.Goexit; gc mode: number of same-sized allocations after the collection (0 = default)
-	Reps  int    `json:"reps,omitempty"`  // repeat/wrap mode: number of repetitions
+	N     int    `json:"n"`                  // slice length
+	Size  int    `json:"size"`               // >= 1
+	Spare int    `json:"spare"`              // spare capacity behind the slice
+	Front int    `json:"front,omitempty"`    // elements of the backing array in front of the slice
+	Kind  string `json:"kind,omitempty"`     // element kind, "" = int
+	Named bool   `json:"named,omitempty"`    // slice type is a named type (sl[E]) instead of []E
+	Mode  string `json:"mode,omitempty"`     // "" = plain, "nested" = re-entrant callbacks + kept results, "gc", "abort", "repeat", "wrap" (modes_test.go), "deep", "guard", "local", "gap", "sleep", "twins", "kept" (extreme_test.go)
+	Size2 int    `json:"size2,omitempty"`    // inner size of the nested mode
+	Procs int    `json:"procs,omitempty"`    // > 0: runtime.GOMAXPROCS(Procs) for the duration of the case
+	Fn    string `json:"fn,omitempty"`       // "" = all; otherwise a subset of "c" (Chunk, ChunkFunc), "w" (Windowed, WindowedFunc), "p" (Pairs, PairsFunc); capital letter = the slice-returning function alone, "x", "y", "z" = ChunkFunc, WindowedFunc, PairsFunc alone
+	At    int    `json:"at,omitempty"`       // gc/abort mode: index (mod number of callbacks) of the callback that collects garbage / aborts
+	Var   int    `json:"var,omitempty"`      // abort mode: 0 = panic, 1 = runtime.Goexit; gc mode: number of same-sized allocations after the collection (0 = default); local mode: bit 0 = across stack growth (else beyond the frame), bit 1 = constant-size make; sleep mode: rounds
+	Reps  int    `json:"reps,omitempty"`     // repeat/wrap/gap mode: number of repetitions (gap: calls on other data in between)
+	Flip  bool   `json:"flip,omitempty"`     // another goroutine flips runtime.GOMAXPROCS between 2 and 7 while the case runs
+	Place string `json:"place,omitempty"`    // guard mode: "end" = the backing array ends where readable memory ends, "start" = it starts where readable memory starts
+	Sleep int    `json:"sleep_ms,omitempty"` // sleep mode: milliseconds of wall-clock time between the calls
 }
 
 // sl is the named slice type used when Case.Named is set.
@@ -38,6 +41,7 @@ type sl[E any] []E
 type kind[E any] struct {
 	name string
 	zst  bool // zero-size type: elements carry no information, only counts and lengths are checked
+	raw  bool // elements hold no pointers: slices of them may live in memory the garbage collector does not know (guard mode)
 	mk   func(i int) E
 	same func(a, b E) bool
 	show func(E) string // deterministic rendering for messages (nil: positions only)
@@ -207,6 +211,7 @@ var allKinds = []string{"int", "string", "f64", "ptr", "nc", "wide", "xwide", "u
 func init() {
 	kInt.eqs, kStr.eqs, kPtr.eqs, kWide.eqs, kXWide.eqs, kU8.eqs, kB3.eqs, kI32.eqs = eqsOf[int], eqsOf[string], eqsOf[*int], eqsOf[wideElem], eqsOf[xwideElem], eqsOf[uint8], eqsOf[b3Elem], eqsOf[int32]
 	kInt.eqPairs, kStr.eqPairs, kPtr.eqPairs, kWide.eqPairs, kXWide.eqPairs, kU8.eqPairs, kB3.eqPairs, kI32.eqPairs = eqPairsOf[int], eqPairsOf[string], eqPairsOf[*int], eqPairsOf[wideElem], eqPairsOf[xwideElem], eqPairsOf[uint8], eqPairsOf[b3Elem], eqPairsOf[int32]
+	kInt.raw, kF64.raw, kWide.raw, kXWide.raw, kU8.raw, kB3.raw, kI32.raw = true, true, true, true, true, true, true
 	if unsafe.Sizeof(struct{}{})+unsafe.Sizeof([0]int{})+unsafe.Sizeof([0]func(){})+unsafe.Sizeof(zPad{})+unsafe.Sizeof(zArrz{}) != 0 {
 		panic("c13: a zero-size kind is not zero-size")
 	}
@@ -304,6 +309,7 @@ type env[S ~[]E, E any] struct {
 	off   int // formula environments: the element at absolute position i was made as k.mk(i+off)
 	evals int
 	err   string // first violation seen inside callbacks
+	limit int    // > 0: replaces zstFuncLimit and zstLimit (deep mode)
 }
 
 // formulaEnv keeps no copy of the input: expected elements are recomputed from k.mk (by value, see kind.at).
@@ -609,10 +615,12 @@ func (e *env[S, E]) unchanged(back S) string {
 	return ""
 }
 
-func (e *env[S, E]) feasible(count int) bool { return !e.k.zst || count <= zstLimit }
+func (e *env[S, E]) feasible(count int) bool { return !e.k.zst || count <= max(zstLimit, e.limit) }
 
 // feasibleFunc: the ...Func variants need no memory per piece, only time.
-func (e *env[S, E]) feasibleFunc(count int) bool { return !e.k.zst || count <= zstFuncLimit }
+func (e *env[S, E]) feasibleFunc(count int) bool {
+	return !e.k.zst || count <= max(zstFuncLimit, e.limit)
+}
 
 // all six functions on s, which must be the n elements at absolute positions base.. of e; ctx prefixes messages.
 // Returns the first violation and the names of the functions that were skipped as infeasible.
@@ -620,61 +628,133 @@ func (e *env[S, E]) six(ctx string, s S, base, size int) (string, []string) {
 	return e.some("", ctx, s, base, size)
 }
 
-// some: the functions selected by fn ("" = all six; "c", "w", "p" select a function with its Func variant).
+// some: the functions selected by fn: "" = all six; "c", "w", "p" select a function with its Func variant;
+// "C", "W", "P" the slice-returning function alone; "x", "y", "z" ChunkFunc, WindowedFunc, PairsFunc alone.
+//
+// A Func variant that would have to make more callbacks than feasible (zero-size element types with astronomically
+// large lengths) is still called: callback number abortAt(n) leaves the call by a sentinel panic that the harness
+// recovers, the callbacks up to there are checked (label aborted:*).
 func (e *env[S, E]) some(fn, ctx string, s S, base, size int) (string, []string) {
 	n := len(s)
 	var skipped []string
-	on := func(letter string) bool { return fn == "" || strings.Contains(fn, letter) }
-	if !on("c") {
-	} else if e.feasibleFunc(chunkCount(n, size)) {
-		if e.feasible(chunkCount(n, size)) {
+	on := func(letters string) bool { return fn == "" || strings.ContainsAny(fn, letters) }
+	if cnt := chunkCount(n, size); e.feasibleFunc(cnt) {
+		if !on("cC") {
+		} else if e.feasible(cnt) {
 			if m := e.checkChunks(ctx+"Chunk", base, n, size, slices.Chunk(s, size)); m != "" {
 				return m, nil
 			}
 		} else {
 			skipped = append(skipped, "skip:chunk-result-only")
 		}
-		cb, done := e.chunkVisitor(ctx+"ChunkFunc", base, n, size)
-		slices.ChunkFunc(s, size, cb)
-		if m := done(); m != "" {
-			return m, nil
+		if on("cx") {
+			cb, done := e.chunkVisitor(ctx+"ChunkFunc", base, n, size)
+			slices.ChunkFunc(s, size, cb)
+			if m := done(); m != "" {
+				return m, nil
+			}
 		}
-	} else {
+	} else if on("cx") {
+		at, i := abortAt(n), 0
+		cb, _ := e.chunkVisitor(ctx+"ChunkFunc", base, n, size)
+		ab := aborted(false, func() {
+			slices.ChunkFunc(s, size, func(p S) {
+				cb(p)
+				if i == at {
+					abortNow(false)
+				}
+				i++
+			})
+		})
+		if e.err != "" {
+			return e.err, nil
+		}
+		if !ab {
+			return e.fail("%sChunkFunc(n=%d,size=%d): returned after %d callback invocations, want %d (callback %d was to leave the call by a panic)", ctx, n, size, i, cnt, at), nil
+		}
+		skipped = append(skipped, "aborted:chunk")
+	} else if on("C") {
 		skipped = append(skipped, "skip:chunk")
 	}
-	if !on("w") {
-	} else if e.feasibleFunc(windowCount(n, size)) {
-		if e.feasible(windowCount(n, size)) {
+	if cnt := windowCount(n, size); e.feasibleFunc(cnt) {
+		if !on("wW") {
+		} else if e.feasible(cnt) {
 			if m := e.checkWindows(ctx+"Windowed", base, n, size, slices.Windowed(s, size)); m != "" {
 				return m, nil
 			}
 		} else {
 			skipped = append(skipped, "skip:windowed-result-only")
 		}
-		cb, done := e.windowVisitor(ctx+"WindowedFunc", base, n, size)
-		slices.WindowedFunc(s, size, cb)
-		if m := done(); m != "" {
-			return m, nil
+		if on("wy") {
+			cb, done := e.windowVisitor(ctx+"WindowedFunc", base, n, size)
+			slices.WindowedFunc(s, size, cb)
+			if m := done(); m != "" {
+				return m, nil
+			}
 		}
-	} else {
+	} else if on("wy") {
+		at, i := abortAt(n), 0
+		cb, _ := e.windowVisitor(ctx+"WindowedFunc", base, n, size)
+		ab := aborted(false, func() {
+			slices.WindowedFunc(s, size, func(w S) {
+				cb(w)
+				if i == at {
+					abortNow(false)
+				}
+				i++
+			})
+		})
+		if e.err != "" {
+			return e.err, nil
+		}
+		if !ab {
+			return e.fail("%sWindowedFunc(n=%d,size=%d): returned after %d callback invocations, want %d (callback %d was to leave the call by a panic)", ctx, n, size, i, cnt, at), nil
+		}
+		skipped = append(skipped, "aborted:windowed")
+	} else if on("W") {
 		skipped = append(skipped, "skip:windowed")
 	}
-	if !on("p") {
-	} else if e.feasibleFunc(pairCount(n)) {
+	if cnt := pairCount(n); e.feasibleFunc(cnt) {
 		// Pairs of a zero-size type costs no memory either
-		if m := e.checkPairs(ctx+"Pairs", base, n, slices.Pairs(s)); m != "" {
-			return m, nil
+		if on("pP") {
+			if m := e.checkPairs(ctx+"Pairs", base, n, slices.Pairs(s)); m != "" {
+				return m, nil
+			}
 		}
-		cb, done := e.pairVisitor(ctx+"PairsFunc", base, n)
-		slices.PairsFunc(s, cb)
-		if m := done(); m != "" {
-			return m, nil
+		if on("pz") {
+			cb, done := e.pairVisitor(ctx+"PairsFunc", base, n)
+			slices.PairsFunc(s, cb)
+			if m := done(); m != "" {
+				return m, nil
+			}
 		}
-	} else {
+	} else if on("pz") {
+		at, i := abortAt(n), 0
+		cb, _ := e.pairVisitor(ctx+"PairsFunc", base, n)
+		ab := aborted(false, func() {
+			slices.PairsFunc(s, func(a, b E) {
+				cb(a, b)
+				if i == at {
+					abortNow(false)
+				}
+				i++
+			})
+		})
+		if e.err != "" {
+			return e.err, nil
+		}
+		if !ab {
+			return e.fail("%sPairsFunc(n=%d): returned after %d callback invocations, want %d (callback %d was to leave the call by a panic)", ctx, n, i, cnt, at), nil
+		}
+		skipped = append(skipped, "aborted:pairs")
+	} else if on("P") {
 		skipped = append(skipped, "skip:pairs")
 	}
 	return "", skipped
 }
+
+// abortAt: the callback that aborts an infeasibly long call (a few hundred, depending on n).
+func abortAt(n int) int { return 257 + n%97 }
 
 func sizeClass(prefix string, v int) string {
 	switch {
@@ -745,6 +825,10 @@ func runKind[S ~[]E, E any](c Case, k *kind[E]) pbt.Outcome {
 		defer runtime.GOMAXPROCS(procs0)
 		out.Labels = append(out.Labels, "gomaxprocs="+strconv.Itoa(c.Procs))
 	}
+	if c.Flip {
+		defer startFlipper()()
+		out.Labels = append(out.Labels, "gomaxprocs-flipping-2<->7-meanwhile")
+	}
 	finish := func(m string, evals int) pbt.Outcome {
 		out.Evals = evals
 		if m != "" {
@@ -757,6 +841,12 @@ func runKind[S ~[]E, E any](c Case, k *kind[E]) pbt.Outcome {
 		return finish(runGC[S](k, c, front, spare, &out))
 	case "wrap":
 		return finish(runWrap[S](k, c, &out))
+	case "guard":
+		return finish(runGuard[S](k, c, front, spare, &out))
+	case "local":
+		return finish(runLocal[S](k, c, front, spare, &out))
+	case "gap", "sleep", "twins":
+		return finish(runHistory[S](k, c, front, spare, &out))
 	}
 
 	var e *env[S, E]
@@ -766,6 +856,9 @@ func runKind[S ~[]E, E any](c Case, k *kind[E]) pbt.Outcome {
 		e, back = formulaEnv[S](k, 0), fill[S](k, front+n+spare, 0)
 	} else {
 		e, back = newEnv[S](k, front+n+spare, 0)
+	}
+	if c.Mode == "deep" {
+		e.limit = maxRealN
 	}
 	s := back[front : front+n]
 	if n == 0 && front+spare == 0 {
@@ -781,6 +874,8 @@ func runKind[S ~[]E, E any](c Case, k *kind[E]) pbt.Outcome {
 		m = runAbort(e, s, front, c, &out)
 	case "repeat":
 		m = runRepeat(e, s, front, c, &out)
+	case "kept":
+		m = runKept(e, s, front, c, &out)
 	default:
 		var skipped []string
 		m, skipped = e.some(c.Fn, "", s, front, size)
@@ -791,7 +886,7 @@ func runKind[S ~[]E, E any](c Case, k *kind[E]) pbt.Outcome {
 			out.Labels = append(out.Labels, skipped...)
 			full := 0
 			for _, l := range skipped {
-				if !strings.HasSuffix(l, "-result-only") {
+				if strings.HasPrefix(l, "skip:") && !strings.HasSuffix(l, "-result-only") {
 					full++
 				}
 			}
@@ -923,7 +1018,17 @@ func runNested[S ~[]E, E any](e *env[S, E], s S, base int, c Case) string {
 		p2[i] = [2]E{}
 	}
 	r2, w2, p2 = append(r2[:0], t, t), append(w2[:0], t, t), append(p2[:0], [2]E{}, [2]E{})
-	_, _, _ = r2, w2, p2
+	// ... and up to their capacity (containers of different results must not share memory)
+	r2, w2, p2 = r2[:cap(r2)], w2[:cap(w2)], p2[:cap(p2)]
+	for i := range r2 {
+		r2[i] = t
+	}
+	for i := range w2 {
+		w2[i] = t
+	}
+	for i := range p2 {
+		p2[i] = [2]E{}
+	}
 	if m := check1("after the caller overwrote the results of later calls"); m != "" {
 		return m
 	}
